@@ -70,10 +70,14 @@ theorem node_strAnn (env : Env) (pc : Bool) (n : NameId) (v : Val) (K : Kids) : 
   ir_exec
 
 set_option maxRecDepth 4000 in
-theorem node_cls (env : Env) (pc : Bool) (c : ClsId) (v : Val) (K : Kids) :
+theorem node_cls (env : Env) (pc : Bool) (c : ClsId) (v : Val) (K : Kids) (hK : ∀ b vn xs, K.fields b vn xs = []) :
     (node env pc (.cls c) v K).raw = clsNode env c v := by
-  ir_exec
-  cases h : v.hasAsdict <;> simp [clsNode, h]
+  ir_exec [hK]
+  cases h0 : env.isNT c
+  · simp [clsNode, h0]
+  · simp [clsNode, ntNode, h0]
+    cases h1 : env.sub (Val.typeOf env v) c <;> simp
+    cases v <;> simp [Val.hasAsdict, allEager]
 
 set_option maxRecDepth 4000 in
 theorem node_any (env : Env) (pc : Bool) (v : Val) (K : Kids) : (node env pc .any v K).raw = anyNode := by
@@ -98,19 +102,29 @@ theorem node_fwd (env : Env) (pc : Bool) (n : NameId) (v : Val) (K : Kids) :
   ir_exec
   cases h1 : env.ctx n <;> simp [fwdNode, h1]
   rename_i c
+  cases h0 : env.isNT c
+  · simp [h0]
+  simp [ntNode, h0]
+  cases h2 : env.sub (Val.typeOf env v) c <;> simp
   cases v <;> simp [Val.hasAsdict, Val.asdictKeys]
-  cases h2 : env.fieldNames c <;> simp [h2]
-  rename_i c' vn xs fs
-  cases h3 : sameKeys vn fs <;> simp [h3]
-  cases fs <;> simp [allEager, Raw.isExc]
+  rename_i c' vn xs
+  generalize (env.fieldNames c).getD [] = fs
+  induction fs with
+  | nil => simp [allEager]
+  | cons f fs ih =>
+    by_cases hf : f ∈ vn
+    · simp [hf, allEager, Raw.isExc]
+    · simpa [hf] using ih
 
 set_option maxRecDepth 4000 in
 theorem node_clsF (env : Env) (pc : Bool) (c : ClsId) (names : List NameId) (anns : List Ann) (v : Val) (K : Kids) :
-    (node env pc (.clsF c names anns) v K).raw = clsFNode env c names v (fun vn xs => (allEager (K.fields vn xs)).raw) := by
+    (node env pc (.clsF c names anns) v K).raw = clsFNode env c names v (fun vn xs => (allEager (K.fields true vn xs)).raw) := by
   ir_exec
-  cases v <;> simp [clsFNode, Val.hasAsdict, Val.asdictKeys, Val.tupleItems]
-  rename_i c' vn xs
-  cases h3 : sameKeys vn names <;> simp
+  cases h0 : env.isNT c
+  · simp [clsFNode, h0]
+  · simp [clsFNode, ntNode, h0]
+    cases h1 : env.sub (Val.typeOf env v) c <;> simp
+    cases v <;> simp [Val.hasAsdict, Val.asdictKeys, Val.tupleItems]
 
 set_option maxRecDepth 4000 in
 theorem node_union (env : Env) (pc : Bool) (sp : USpell) (ms : List Ann) (v : Val) (K : Kids) :
@@ -148,22 +162,19 @@ theorem sameKeys_nil (l : List NameId) : sameKeys l [] = l.isEmpty := by cases l
 
 set_option maxRecDepth 4000 in
 theorem node_seq (env : Env) (pc : Bool) (sp0 : Spell) (o : SeqOrigin) (a : Ann) (v : Val) (K : Kids) (elem : Bool → Val → Raw)
-    (h : ∀ x, (K.arg 0 x).raw = elem (sp0 == .pep585) x) (hK : ∀ vn xs, K.fields vn xs = []) :
+    (h : ∀ x, (K.arg 0 x).raw = elem (sp0 == .pep585) x) :
     (node env pc (.seq sp0 o a) v K).raw = seqNode env pc sp0 o a v elem := by
   have hf : (fun x => (K.arg 0 x).raw) = elem (sp0 == .pep585) := funext h
   cases pc <;> cases sp0
   case false.pep585 =>
     ir_exec
     simp [seqNode, effSpell, cfg_req_seqT, req_seqR, cfg_genericChecksOrigin, cfg_origin_seq, cfg_iteratorSkip, elemQuant_eq,
-      allLazy_map_raw, hf, hK, sameKeys_nil, seqName]
-    cases h0 : v.hasAsdict <;> simp
-    · cases h4 : originConvertible o.runtimeName <;> simp
-      cases h5 : convOk a <;> simp
-      cases h1 : env.sub (Val.typeOf env v) (env.seqCls o) <;> simp
-      cases h2 : env.sub (Val.typeOf env v) env.iteratorCls <;> simp
-      cases h3 : v.iter <;> simp
-    · cases h6 : o.aliasAnnotated <;> simp
-      cases h7 : v.asdictKeys.isEmpty <;> simp [allEager]
+      allLazy_map_raw, hf, seqName]
+    cases h4 : originConvertible o.runtimeName <;> simp
+    cases h5 : convOk a <;> simp
+    cases h1 : env.sub (Val.typeOf env v) (env.seqCls o) <;> simp
+    cases h2 : env.sub (Val.typeOf env v) env.iteratorCls <;> simp
+    cases h3 : v.iter <;> simp
   all_goals
     ir_exec
     simp [seqNode, effSpell, cfg_req_seq, cfg_req_seqT, cfg_genericChecksOrigin, cfg_origin_seq, cfg_iteratorSkip, elemQuant_eq,
@@ -180,22 +191,18 @@ theorem conjRes_and2 (r1 r2 : Res) : (conjRes "and" [r1, r2]).raw = r1.raw.and2 
 
 set_option maxRecDepth 4000 in
 theorem node_map (env : Env) (pc : Bool) (sp0 : Spell) (o : MapOrigin) (k w : Ann) (v : Val) (K : Kids) (key val : Bool → Val → Raw)
-    (hk : ∀ x, (K.arg 0 x).raw = key (sp0 == .pep585) x) (hw : ∀ x, (K.arg 1 x).raw = val (sp0 == .pep585) x)
-    (hK : ∀ vn xs, K.fields vn xs = []) :
+    (hk : ∀ x, (K.arg 0 x).raw = key (sp0 == .pep585) x) (hw : ∀ x, (K.arg 1 x).raw = val (sp0 == .pep585) x) :
     (node env pc (.map sp0 o k w) v K).raw = mapNode env pc sp0 o k w v key val := by
   cases pc <;> cases sp0
   case false.pep585 =>
     ir_exec
     simp [mapNode, effSpell, cfg_req_mapT, req_mapR, cfg_genericChecksOrigin, cfg_origin_map, cfg_itemsChecksKey, cfg_itemsChecksValue,
-      allLazy_map_raw, hK, sameKeys_nil, mapName, conjRes_and2, hk, hw]
-    cases h0 : v.hasAsdict <;> simp
-    · cases h4 : originConvertible o.runtimeName <;> simp
-      cases h5 : convOk k <;> simp
-      cases h5' : convOk w <;> simp
-      cases h1 : env.sub (Val.typeOf env v) (env.mapCls o) <;> simp
-      cases h3 : v.items <;> simp
-    · cases h6 : o.aliasAnnotated <;> simp
-      cases h7 : v.asdictKeys.isEmpty <;> simp [allEager]
+      allLazy_map_raw, mapName, conjRes_and2, hk, hw]
+    cases h4 : originConvertible o.runtimeName <;> simp
+    cases h5 : convOk k <;> simp
+    cases h5' : convOk w <;> simp
+    cases h1 : env.sub (Val.typeOf env v) (env.mapCls o) <;> simp
+    cases h3 : v.items <;> simp
   all_goals
     ir_exec
     simp [mapNode, effSpell, cfg_req_map, cfg_req_mapT, cfg_genericChecksOrigin, cfg_origin_map, cfg_itemsChecksKey, cfg_itemsChecksValue,
@@ -214,7 +221,6 @@ theorem node_tuple (env : Env) (pc : Bool) (sp0 : Spell) (items : List Ann) (v :
   case false.pep585 =>
     ir_exec
     simp [tupleNode, effSpell, cfg_req_Tuple, cfg_req_tuple, cfg_genericChecksOrigin, cfg_origin_tuple, cfg_tupleLengthTest, tupleName, hz]
-    cases h0 : v.hasAsdict <;> simp
     cases h4 : originConvertible "tuple" <;> simp
     cases h5 : convOk.convOkL items <;> simp
     cases items with
@@ -246,7 +252,6 @@ theorem node_tupleVar (env : Env) (pc : Bool) (sp0 : Spell) (a : Ann) (v : Val) 
   case false.pep585 =>
     ir_exec
     simp [tupleVarNode, effSpell, cfg_req_Tuple, cfg_req_tuple, cfg_genericChecksOrigin, cfg_origin_tuple, tupleName, allLazy_map_raw, hf]
-    cases h0 : v.hasAsdict <;> simp
     cases h4 : originConvertible "tuple" <;> simp
     cases h5 : convOk a <;> simp
     cases h1 : env.sub (Val.typeOf env v) env.tupleCls <;> simp
@@ -266,7 +271,6 @@ theorem node_typeOf (env : Env) (pc : Bool) (sp0 : Spell) (a : Ann) (v : Val) (K
   case false.pep585 =>
     ir_exec
     simp [typeOfNode, effSpell, req_type1, cfg_req_Type, cfg_genericChecksOrigin, cfg_origin_type, typeName]
-    cases h0 : v.hasAsdict <;> simp
     cases h4 : originConvertible "type" <;> simp
     cases h5 : convOk a <;> simp
     cases h1 : env.sub (Val.typeOf env v) env.typeCls <;> simp
@@ -292,7 +296,6 @@ theorem node_bare (env : Env) (pc : Bool) (o : BareOrigin) (v : Val) (K : Kids) 
     simp only [BareOrigin.name, BareOrigin.isBuiltin] at hr hb
     ir_exec [hr, BareOrigin.name, BareOrigin.isBuiltin]
     simp [bareNode, BareOrigin.name, BareOrigin.isBuiltin, hr, hb]
-    try (cases h0 : v.hasAsdict <;> simp)
     try (simpa using hb)
 
 /-- `interpIsInstance` and its three list companions agree with the hand-written model, for every input -/
@@ -300,14 +303,14 @@ theorem ir_refines_all (env : Env) (orc : Nat → Val → Raw) :
     (∀ pc a v, (interpIsInstance env orc pc a v).raw = isInstance env orc pc a v) ∧
     (∀ pc as xs, (allLazy (interpZip env orc pc as xs)).raw = zipRaw env orc pc as xs) ∧
     (∀ pc ms v, (anyEager (interpEach env orc pc ms v)).raw = anyRaw env orc pc ms v) ∧
-    (∀ pc ns as vn xs, (allEager (interpFields env orc pc ns as vn xs)).raw = fieldsRaw env orc pc ns as vn xs) := by
+    (∀ pc ns as vn xs, (allEager (interpFields env orc true pc ns as vn xs)).raw = fieldsRaw env orc pc ns as vn xs) := by
   apply isInstance.mutual_induct
     (motive_1 := fun pc a v => (interpIsInstance env orc pc a v).raw = isInstance env orc pc a v)
     (motive_2 := fun pc as xs => (allLazy (interpZip env orc pc as xs)).raw = zipRaw env orc pc as xs)
     (motive_3 := fun pc ms v => (anyEager (interpEach env orc pc ms v)).raw = anyRaw env orc pc ms v)
-    (motive_4 := fun pc ns as vn xs => (allEager (interpFields env orc pc ns as vn xs)).raw = fieldsRaw env orc pc ns as vn xs)
+    (motive_4 := fun pc ns as vn xs => (allEager (interpFields env orc true pc ns as vn xs)).raw = fieldsRaw env orc pc ns as vn xs)
   case case1 => intro pc v; simp only [interpIsInstance, isInstance]; exact node_none env pc v {}
-  case case2 => intro pc c v; simp only [interpIsInstance, isInstance]; exact node_cls env pc c v {}
+  case case2 => intro pc c v; simp only [interpIsInstance, isInstance]; exact node_cls env pc c v {} (fun _ _ _ => rfl)
   case case3 =>
     intro pc c names anns v ih
     simp only [interpIsInstance, isInstance]
@@ -329,11 +332,11 @@ theorem ir_refines_all (env : Env) (orc : Nat → Val → Raw) :
   case case11 =>
     intro pc sp0 o a v ih
     simp only [interpIsInstance, isInstance]
-    exact node_seq env pc sp0 o a v _ _ (fun x => ih _ x) (fun _ _ => rfl)
+    exact node_seq env pc sp0 o a v _ _ (fun x => ih _ x)
   case case12 =>
     intro pc sp0 o k w v ihk ihw
     simp only [interpIsInstance, isInstance]
-    exact node_map env pc sp0 o k w v _ _ _ (fun x => ihk _ x) (fun x => ihw _ x) (fun _ _ => rfl)
+    exact node_map env pc sp0 o k w v _ _ _ (fun x => ihk _ x) (fun x => ihw _ x)
   case case13 =>
     intro pc sp0 items v ih
     simp only [interpIsInstance, isInstance]
@@ -363,8 +366,8 @@ theorem ir_refines_all (env : Env) (orc : Nat → Val → Raw) :
     simp only [interpEach, anyRaw, anyEager, ih1]
     cases h : isInstance env orc pc a v <;> simp [Raw.isExc, anyStep, ih3]
   case case21 =>
-    intro pc n ns a as vn xs hl
-    simp [interpFields, fieldsRaw, hl, allEager, oob, Raw.isExc]
+    intro pc n ns a as vn xs hl ih4
+    simp only [interpFields, fieldsRaw, hl, ↓reduceIte]; exact ih4
   case case22 =>
     intro pc n ns a as vn xs x hl ih1 ih4
     simp only [interpFields, fieldsRaw, hl, allEager, ih1]
